@@ -139,6 +139,12 @@ class Module:
         self.relpath = relpath
         self.source = source
         self.tree = ast.fix_missing_locations(Canon().visit(ast.parse(source, filename=str(path))))
+        from .inline import inline_new_helpers
+
+        try:
+            self.inlined = inline_new_helpers(self.tree, name)
+        except RecursionError:
+            self.inlined = []
         self.imports: dict[str, str] = {}
         self.functions: dict[str, Func] = {}
         self.classes: dict[str, Class] = {}
@@ -335,7 +341,33 @@ class Repo:
                     stack.append(c)
         return out
 
+    def _drop_dead_inlined_helpers(self):
+        """A helper added after the pinned inventory whose every call was inlined is accounted for at
+        its call sites: remove its definition from the tables so that scans do not see it twice."""
+        names = {q for m in self.modules.values() for q in getattr(m, "inlined", [])}
+        for q in sorted(names):
+            f = self.functions.get(q)
+            if f is None:
+                continue
+            still_called = False
+            for g in self.functions.values():
+                if g is f:
+                    continue
+                for n in walk_shallow(g.node):
+                    if isinstance(n, ast.Call) and ((isinstance(n.func, ast.Attribute) and n.func.attr == f.name) or (isinstance(n.func, ast.Name) and n.func.id == f.name)):
+                        still_called = True
+                    if isinstance(n, ast.Name | ast.Attribute) and not isinstance(getattr(n, "_parent", None), ast.Call) and (getattr(n, "id", None) == f.name or getattr(n, "attr", None) == f.name):
+                        still_called = True
+            if not still_called:
+                del self.functions[q]
+                if f.cls is not None:
+                    f.cls.methods.pop(f.name, None)
+                else:
+                    f.module.functions.pop(f.name, None)
+                self.dropped_helpers = getattr(self, "dropped_helpers", []) + [q]
+
     def _link(self):
+        self._drop_dead_inlined_helpers()
         for c in self.classes.values():
             for b in c.base_names:
                 tgt = self.resolve_dotted(c.module, b)
